@@ -2,6 +2,7 @@ package mongokit
 
 import (
 	"fmt"
+	"math"
 
 	"go.mongodb.org/mongo-driver/bson"
 
@@ -172,7 +173,7 @@ func projectSlice(ctx Context, doc bsonkit.Doc, _, path string, v interface{}) e
 	case int64:
 		limit = int(nn)
 	case float64:
-		limit = int(nn)
+		limit = projectSliceFloat(nn)
 	case bson.A:
 		if len(nn) != 2 {
 			return fmt.Errorf("$slice: array argument requires 2 elements, got %d", len(nn))
@@ -216,9 +217,11 @@ func projectSlice(ctx Context, doc bsonkit.Doc, _, path string, v interface{}) e
 				start = n
 			}
 		}
-		end := start + limit
-		if end > n {
-			end = n
+		// (compare against the remaining length instead of adding, the limit
+		// may be close to the integer maximum)
+		end := n
+		if limit < n-start {
+			end = start + limit
 		}
 		state.merge[path] = append(bson.A{}, array[start:end]...)
 		return nil
@@ -233,9 +236,9 @@ func projectSlice(ctx Context, doc bsonkit.Doc, _, path string, v interface{}) e
 			state.merge[path] = array
 		}
 	case limit < 0:
-		n := -limit
-		if n < len(array) {
-			state.merge[path] = array[len(array)-n:]
+		// (compare without negating, the limit may be the integer minimum)
+		if limit > -len(array) {
+			state.merge[path] = array[len(array)+limit:]
 		} else {
 			state.merge[path] = array
 		}
@@ -253,10 +256,25 @@ func projectSliceInt(v interface{}) (int, bool) {
 	case int64:
 		return int(n), true
 	case float64:
-		return int(n), true
+		return projectSliceFloat(n), true
 	default:
 		return 0, false
 	}
+}
+
+// projectSliceFloat converts a double to a slice bound; values beyond the
+// 32-bit range (including infinities) are clamped and NaN counts as zero as
+// the plain conversion of such values is undefined.
+func projectSliceFloat(f float64) int {
+	switch {
+	case f != f:
+		return 0
+	case f > math.MaxInt32:
+		return math.MaxInt32
+	case f < math.MinInt32:
+		return math.MinInt32
+	}
+	return int(f)
 }
 
 func projectElemMatch(ctx Context, doc bsonkit.Doc, _, path string, v interface{}) error {
